@@ -34,6 +34,7 @@ type c15SoakCfg struct {
 	ConsumerMarks bool   `json:"consumers_mark_their_batches"`
 	Marker        int    `json:"marker_ops"`
 	Retransmit    bool   `json:"retransmissions"`
+	Flaky         bool   `json:"gets_cancelled_at_random_and_retried"`
 	Seed          int64  `json:"seed"`
 }
 
@@ -67,6 +68,7 @@ func c15SoakRound(v *verifOut, cfg c15SoakCfg) {
 	got := make([][]c15Got, cfg.Consumers)
 	lastErr := make([]error, cfg.Consumers)
 	var wgProd, wgCons sync.WaitGroup
+	var retries atomic.Int64
 
 	mark := func(cmds []c15Cmd) {
 		b := &Batch{}
@@ -82,6 +84,7 @@ func c15SoakRound(v *verifOut, cfg c15SoakCfg) {
 	for g := 0; g < cfg.Consumers; g++ {
 		g := g
 		wgCons.Add(1)
+		crng := rand.New(rand.NewSource(cfg.Seed*1000 + 500 + int64(g)))
 		go func() {
 			defer wgCons.Done()
 			for {
@@ -89,7 +92,24 @@ func c15SoakRound(v *verifOut, cfg c15SoakCfg) {
 				for c := range snap {
 					snap[c] = completed[c].Load()
 				}
-				b, err := cc.Get(ctx)
+				// a Get whose own context may be cancelled at any moment (view change / timeout of the
+				// proposer), possibly exactly when a batch becomes ready; the consumer then retries
+				gctx, gcancel := context.WithCancel(ctx)
+				if cfg.Flaky && crng.Intn(2) == 0 {
+					spins := crng.Intn(4)
+					go func() {
+						for i := 0; i < spins; i++ {
+							runtime.Gosched()
+						}
+						gcancel()
+					}()
+				}
+				b, err := cc.Get(gctx)
+				gcancel()
+				if err != nil && ctx.Err() == nil && b == nil && errors.Is(err, context.Canceled) {
+					retries.Add(1)
+					continue // only this Get was cancelled: try again
+				}
 				if err != nil {
 					lastErr[g] = err
 					if b != nil {
@@ -231,6 +251,7 @@ func c15SoakRound(v *verifOut, cfg c15SoakCfg) {
 		v.Oracle(true, "", "", nil)
 	}
 	v.Seen(fmt.Sprintf("%+v", cfg), batches > 1 && (stale > 0 || cfg.Consumers > 1), map[string]any{"config": cfg, "batches": batches, "dropped_or_rejected": stale, "left_in_cache": len(final.Cache)})
+	v.CountN("soak_gets_cancelled_and_retried", int(retries.Load()))
 	v.CountN("soak_batches", batches)
 	v.CountN("soak_commands_added", len(byTag))
 	v.CountN("soak_dropped_or_rejected_stale", stale)
@@ -251,6 +272,7 @@ func TestVerifC15Soak(t *testing.T) {
 				Consumers:     1 + v.rng.Intn(3),
 				ConsumerMarks: v.rng.Intn(3) != 0,
 				Retransmit:    v.rng.Intn(2) == 0,
+				Flaky:         v.rng.Intn(2) == 0,
 				Seed:          v.seed*1_000_000 + int64(r),
 			}
 			if v.rng.Intn(2) == 0 {
